@@ -119,6 +119,18 @@ func NumberPool() []NumCase {
 	for _, f := range []float64{0.1, 0.3, 1e-7, 123.456} {
 		add(cty.NumberFloatVal(f).Add(cty.MustParseNumberVal("0")), "float64-value-at-512-bits", false)
 	}
+	// short mantissas (<= 53 bits) whose binary exponent lies outside the float64 range: any short cut through
+	// float64 (comparison, encoding selection, hashing) sees an infinity, a zero or a subnormal neighbour instead
+	add(cty.NumberVal(pow2(1024)), "beyond-float64-exponent", false)
+	add(cty.NumberVal(pow2(1100)), "beyond-float64-exponent", false)
+	add(cty.NumberFloatVal(math.MaxFloat64).Multiply(cty.NumberIntVal(2)), "beyond-float64-exponent", false)
+	add(cty.NumberFloatVal(math.MaxFloat64).Multiply(cty.NumberIntVal(4)), "beyond-float64-exponent", false)
+	add(cty.NumberVal(new(big.Float).Neg(pow2(1030))), "beyond-float64-exponent", false)
+	add(cty.NumberVal(pow2(-1075)), "beyond-float64-exponent", false)
+	add(cty.NumberVal(pow2(-1076)), "beyond-float64-exponent", false)
+	add(cty.NumberVal(pow2(-1100)), "beyond-float64-exponent", false)
+	add(cty.NumberVal(new(big.Float).SetPrec(512).Mul(pow2(-1080), big.NewFloat(3))), "beyond-float64-exponent", false)
+	add(cty.NumberVal(new(big.Float).SetPrec(512).Mul(pow2(-1076), big.NewFloat(-3))), "beyond-float64-exponent", false)
 	numberPool = p
 	return p
 }
